@@ -89,6 +89,10 @@ pub enum Step {
     },
     HoldRef(usize),
     DropHeld(usize),
+    /// keep a clone of the hook's own `&ActorRef<Self>` in the actor's state (the actor then references itself)
+    HoldSelf,
+    /// upgrade the hook's own weak/strong handle and report whether it worked
+    CheckUpgrade,
     /// spin for this many wall-clock microseconds (metrics lower bound)
     Busy(u64),
     Panic,
